@@ -83,6 +83,41 @@ class EntryRef(tuple):
         self.ev._place_store(self.place, L(*items), self.env)
 
 
+class Scope(dict):
+    """the variables of an inner scope (block, loop body, match arm, closure body): a copy of the enclosing scope's that remembers which
+    names were written here, so that only those are copied back on exit - a name this scope did not touch may have been changed
+    meanwhile through another route (a captured-by-reference closure called from here) and must not be overwritten with the stale copy"""
+    def __init__(self, src=()):
+        dict.__init__(self, src)
+        self.written = set()
+
+    def __setitem__(self, k, v):
+        self.written.add(k)
+        dict.__setitem__(self, k, v)
+
+    def update(self, other=(), **kw):
+        other = dict(other, **kw)
+        self.written |= set(other)
+        dict.update(self, other)
+
+    def setdefault(self, k, d=None):
+        if k not in self:
+            self.written.add(k)
+        return dict.setdefault(self, k, d)
+
+    def pop(self, k, *a):
+        self.written.add(k)
+        return dict.pop(self, k, *a)
+
+
+def _back(env, e2, skip=()):
+    """copy back what the inner scope e2 wrote to names of the enclosing scope env"""
+    keys = e2.written if isinstance(e2, Scope) else list(e2)
+    for kk in keys:
+        if kk in env and kk in e2 and kk not in skip:
+            env[kk] = e2[kk]
+
+
 class _Rev:
     """sort key wrapped in std::cmp::Reverse"""
     def __init__(self, k):
@@ -343,7 +378,7 @@ class AEval(dtable.Eval):
                 n = min(len(v[1]) for v in lists.values())
                 parts = []
                 for i in range(n):
-                    e2 = dict(env)
+                    e2 = Scope(env)
                     for nm, v in lists.items():
                         e2[nm] = v[1][i]
                     parts.append(self.quote(t["c"], e2))
@@ -611,7 +646,7 @@ class AEval(dtable.Eval):
                         b = self.pat(c["pat"], v, env)
                         if b is None:
                             return UNIT
-                        e2 = dict(env)
+                        e2 = Scope(env)
                         e2.update(b)
                     elif not self.truth(c, env):
                         return UNIT
@@ -626,9 +661,7 @@ class AEval(dtable.Eval):
                     return bk.value if bk.value is not None else UNIT
                 finally:
                     if e2 is not env:
-                        for kk in env:
-                            if kk in e2 and not (k == "While" and is_node(e["cond"]) and e["cond"]["k"] == "LetExpr" and kk in b):
-                                env[kk] = e2[kk]
+                        _back(env, e2, b if (k == "While" and is_node(e["cond"]) and e["cond"]["k"] == "LetExpr") else ())
         if k == "Continue":
             raise Cont(e.get("label"))
         if k == "Try":
@@ -682,7 +715,7 @@ class AEval(dtable.Eval):
                 if consume is not None:
                     # iterating through `&mut it`: the iterator variable loses the element (what is left stays for later)
                     env[consume] = ("list", tuple(env[consume][1][1:]))
-                e2 = dict(env)
+                e2 = Scope(env)
                 b = self.pat(e["pat"], x, e2)
                 if b is None:
                     raise Unknown("loop pattern")
@@ -699,9 +732,7 @@ class AEval(dtable.Eval):
                     break
                 finally:
                     # assignments to outer variables made in the body (also before a `continue` / `break`)
-                    for kk in env:
-                        if kk in e2 and kk not in b:
-                            env[kk] = e2[kk]
+                    _back(env, e2, b)
                     if store is not None and b and any(e2.get(k2) != b[k2] for k2 in b):
                         new_elems[idx] = self._rebuild(e["pat"], x, e2)
             if mref is not None:
@@ -884,7 +915,7 @@ class AEval(dtable.Eval):
             if b is None:
                 return B(False)
             if e.get("mguard") is not None:
-                e2 = dict(env)
+                e2 = Scope(env)
                 e2.update(b)
                 return B(self.truth(e["mguard"], e2))
             return B(True)
@@ -938,15 +969,13 @@ class AEval(dtable.Eval):
             _m, params, body = env["macro!" + p]
             if len(params) != len(e["args"]):
                 raise Unknown("macro arity " + p)
-            e2 = dict(env)
+            e2 = Scope(env)
             for pn, a in zip(params, e["args"]):
                 e2[pn] = self.ex(a, env)
             try:
                 return self.ex(body, e2)
             finally:
-                for kk in env:
-                    if kk in e2 and kk not in params:
-                        env[kk] = e2[kk]
+                _back(env, e2, params)
         if p == "cfg":
             if self.cfg is not None:
                 return B(bool(self.cfg(_flatp(tok_text(e["tokens"])) if "tokens" in e else _flatp(show(e)))))
@@ -957,7 +986,7 @@ class AEval(dtable.Eval):
     def apply(self, f, args):
         if f[0] == "closure":
             node, cenv = f[1], f[2]
-            e2 = dict(cenv)
+            e2 = Scope(cenv)
             for p, a in zip(node["inputs"], args):
                 b = self.pat(p, a, e2)
                 if b is None:
@@ -973,9 +1002,7 @@ class AEval(dtable.Eval):
             finally:
                 self._applied_env = e2
                 # a closure that assigns to / pushes on a captured variable changes the variable it captured
-                for kk in cenv:
-                    if kk in e2 and kk not in bound:
-                        cenv[kk] = e2[kk]
+                _back(cenv, e2, bound)
         if f[0] == "fnref":
             return self.call_fn(f[1], args)
         if f[0] == "localfn":
@@ -1255,7 +1282,7 @@ class AEval(dtable.Eval):
                     which = (p.get("path") or "").split("::")[-1] if p.get("k") == "PTupleStruct" else None
                     if which in ("Vacant", "Occupied") and (which == "Occupied") != bool(hit):
                         continue
-                    e2 = dict(env)
+                    e2 = Scope(env)
                     if which in ("Vacant", "Occupied"):
                         b = self.pat(p["elems"][0], ent, e2) if p.get("elems") else {}
                         if b is None:
@@ -1272,16 +1299,14 @@ class AEval(dtable.Eval):
                     try:
                         return self.ex(a["body"], e2)
                     finally:
-                        for kk in env:
-                            if kk not in b and kk in e2:
-                                env[kk] = e2[kk]
+                        _back(env, e2, b)
                 raise Unknown("no arm matches the map entry")
         v = self.ex(m["scrutinee"], env)
         for a in m["arms"]:
             b = self.pat(a["pat"], v, env)
             if b is None:
                 continue
-            e2 = dict(env)
+            e2 = Scope(env)
             e2.update(b)
             if a.get("guard") is not None and not self.cond(a["guard"], e2):
                 continue
@@ -1293,9 +1318,7 @@ class AEval(dtable.Eval):
                 return self.ex(a["body"], e2)
             finally:
                 self._assigned_stack.pop()
-                for kk in env:
-                    if kk not in b and kk in e2:
-                        env[kk] = e2[kk]
+                _back(env, e2, b)
                 root = m["scrutinee"]
                 while is_node(root) and root["k"] in ("Paren", "Unary", "Ref", "Field"):
                     root = root.get("expr") or root.get("base")
@@ -2544,7 +2567,7 @@ class AEval(dtable.Eval):
 
     def block(self, b, env):
         outer = env
-        env = dict(env)
+        env = Scope(env)
         shadow = set()
         aliases = {}
         last = UNIT
@@ -2642,9 +2665,7 @@ class AEval(dtable.Eval):
         finally:
             self._flush_aliases(aliases, env)
             # assignments / pushes to variables of the enclosing scope stay visible there
-            for kk in outer:
-                if kk not in shadow and kk in env:
-                    outer[kk] = env[kk]
+            _back(outer, env, shadow)
 
     def iff(self, n, env):
         c = n["cond"]
@@ -2652,14 +2673,12 @@ class AEval(dtable.Eval):
             v = self.ex(c["expr"], env)
             b = self.pat(c["pat"], v, env)
             if b is not None:
-                e2 = dict(env)
+                e2 = Scope(env)
                 e2.update(b)
                 try:
                     return self.ex(n["then"], e2)
                 finally:
-                    for kk in env:
-                        if kk not in b and kk in e2:
-                            env[kk] = e2[kk]
+                    _back(env, e2, b)
                     self._after_arm(c["expr"], c["pat"], v, b, e2, env)
             return self.ex(n["else"], env) if n.get("else") else UNIT
         if self.truth(c, env):
